@@ -612,13 +612,13 @@ def reference_check(cfg, rules, adapter, path, method, out, ws=None, lenient_nos
                     return None
                 if any(t == lead(p + "/") and slash_candidates(p) for p in merged_variants(path_part)):
                     return None
-        if any(r["defaults"] or r["alias"] for r in rules):
-            return None  # defaults / alias canonicalisation: C12's subject
         # a strict branch rule whose regex accepts path + '/' while its to_python rejects the value:
         # SlashRequired is raised before any conversion (F03c)
         pre = [rr for rr in refs if rr.strict and rr.method_ok(method) and rr.r["ws"] == websocket]
         early = any((e := rr.exact(p + "/")) is not None and not e[0] for rr in pre for p in ([path_part] + (merged_variants(path_part) if cfg["merge"] else [])))
         early = early or (cfg["merge"] and any(not x[2] and x[0].merge for p in merged_variants(path_part) for x in admitting(p)))
+        if not early and any(r["defaults"] or r["alias"] for r in rules):
+            return None  # defaults / alias canonicalisation: C12's subject
         return (f"redirect to {url!r} is not justified by a rule admitting the target", "redirect-before-conversion" if early else False)
     # not matched / not redirected
     if direct_valid:
